@@ -106,6 +106,7 @@ type Outcome struct {
 type Info struct {
 	Prop       string   `json:"prop"`
 	PerProcess bool     `json:"per_process"`
+	JobTimeout int      `json:"job_timeout"`
 	Enum       int      `json:"enum"`
 	Random     int      `json:"random"`
 	Real       []string `json:"real"`
@@ -544,6 +545,9 @@ func doRun(o runOpts) int {
 	jobTimeout := 180 * time.Second
 	if info.PerProcess {
 		jobTimeout = 90 * time.Second
+	}
+	if d := time.Duration(info.JobTimeout) * time.Second; d > jobTimeout {
+		jobTimeout = d
 	}
 	var outcomes []Outcome
 	infra := []string{}
